@@ -24,6 +24,12 @@ CHECKS = {
             "(unique), and all 19 other forms (operators, checked/wrapping, div_ceil, (checked_)next_multiple_of) against that "
             "pair; zero divisors must panic / give None; all (n,d) at BITS<=6, adversarial Knuth inputs (add-back, forced digit, "
             "every divisor limb length and normalisation class) elsewhere."),
+    "C04": ("spec/UintMachine.tla (Canonical, NativeOK), spec/UintBits.tla CheckCmp, spec/UintCanon.tla", "TLC model-checks the register "
+            "machine UintMachine (46 public operations as actions) exhaustively at tiny widths with the invariants Canonical (closure of "
+            "the canonical set) and NativeOK (agreement with the plain integer statements), and every explored transition is replayed "
+            "on the real Uint (spec -> implementation); TLC -simulate histories at non-aligned real widths are stepped through the real "
+            "register file and compared after every step; comparison/hash events, five generator integrations, rejecting constructors "
+            "and compiled probe programs for ill-formed (BITS, LIMBS) pairs are validated by trace validation."),
     "C05": ("spec/UintBits.tla CheckShift/CheckShiftU", "Every recorded shift, rotation and arithmetic shift (methods, 80 typed "
             "operator overload forms, Uint-typed amounts of any magnitude) is validated by TLC against value*2^s mod 2^BITS, "
             "floor(value/2^s), exact lost-bit flags and the cyclic permutation; all values x all amounts 0..BITS+66 at BITS<=6, "
@@ -73,6 +79,11 @@ CHECKS = {
     "C15": ("spec/Kernels.tla CheckKAddMul/CheckKNx1/CheckKWord/CheckKShift", "addmul (flag exact), addmul_n, the nx1 family, adc_n, "
             "sbb_n, single-word primitives, small shifts and cmp validated by TLC against balance equations "
             "'inputs = result limbs +- returned word * 2^(64 len)'."),
+    "C19": ("spec/Literal.tla Classify", "Every literal token is compiled inside and outside uint! / uint_with_path! as a one-function "
+            "probe program (nesting depth 0..3); the observation (expanded constant with width and limbs / compile error / passed "
+            "through unchanged) and the run-time parse of the same digits are validated by TLC against Classify, the TLA+ reference "
+            "semantics of the literal grammar.", "translation_validation",
+            "TLA+ reference semantics of the literal transformer (Literal.tla) + TLC validation of observations from compiled probe programs"),
     "C20": ("spec/Facade.tla", "Every facade entry point (num-traits ~40 traits incl. PrimInt/ToPrimitive/FromPrimitive/NumCast/Num, "
             "num-integer Integer, subtle ct_eq/ct_gt/ct_lt/select/assign/swap/negate + bit_ct, ~60 forwarded Bits methods and "
             "operators, zeroize) is recorded next to the inherent method on the same operands and validated by TLC with the Layer-1 "
@@ -82,8 +93,6 @@ CHECKS = {
 }
 
 PENDING = {
-    "C04": "in progress in this revision: canonical-value closure over histories, comparisons and ill-formed type probes are being built",
-    "C19": "in progress in this revision: uint! literal probe programs are being built",
 }
 
 
@@ -125,6 +134,10 @@ def main():
              "kind_free_text": "TLC trace validation of events recorded from the real code against the Layer-1 TLA+ contract (BigNat arithmetic in pure TLA+), sharded over 16 single-worker TLC processes"},
             {"name": "ux", "path": "harness/", "serves_properties": sorted(CHECKS),
              "kind_free_text": "Rust executor binaries ux_<group>: scenario line -> real ruint API call under catch_unwind -> event line; hang/crash supervision"},
+            {"name": "tlc-machine", "path": "spec/UintMachine.tla", "serves_properties": ["C04"],
+             "kind_free_text": "TLC exhaustive model checking and simulation of the register-machine specification; transitions and histories replayed on the real code by harness ux_mach"},
+            {"name": "probes", "path": "lib/props/C19.py, lib/props/C04.py", "serves_properties": ["C04", "C19"],
+             "kind_free_text": "generated probe programs compiled by cargo/rustc against the working tree (uint! literals; ill-formed Uint types)"},
             {"name": "tlc-mc", "path": "spec/MC_BigNat.tla", "serves_properties": sorted(CHECKS),
              "kind_free_text": "TLC model checking of the specification's own arithmetic against native integers"},
         ],
